@@ -45,7 +45,7 @@ func c05Prepare(p *mon.Parent) (func(int) string, error) {
 	env := append(os.Environ(), "GOFLAGS=-mod=mod", "GOPROXY=off", "GOSUMDB=off", "GOTOOLCHAIN=local")
 	tool := filepath.Join(p.Scratch, "participle-gen")
 	cmd := exec.Command("go", "build", "-o", tool, ".")
-	cmd.Dir = "/repo/cmd/participle"
+	cmd.Dir = gram.RepoDir() + "/cmd/participle"
 	cmd.Env = env
 	if out, err := cmd.CombinedOutput(); err != nil {
 		return nil, fmt.Errorf("building cmd/participle failed: %v\n%s", err, out)
